@@ -92,7 +92,7 @@ func snap(sb *strings.Builder, v data.GetValue, depth int) {
 				sb.WriteString(",")
 			}
 			first = false
-			sb.WriteString(k + "=>")
+			sb.WriteString(strconv.Quote(k) + "=>")
 			snap(sb, pv, depth+1)
 			return true
 		})
